@@ -1,0 +1,23 @@
+//go:build verif
+
+// Copyright 2026 The Scriggo Authors. All rights reserved.
+// Use of this source code is governed by a BSD-style
+// license that can be found in the LICENSE file.
+
+// Package c26 is a verification bridge (build tag "verif") that exposes the
+// unexported Markdown escapers of internal/runtime to the external
+// correspondence harness of property C26. It adds no behaviour.
+package c26
+
+import "github.com/open2b/scriggo/internal/runtime"
+
+// MarkdownEscape calls runtime.markdownEscape and returns what it wrote.
+func MarkdownEscape(s string, allowHTML bool) (string, error) {
+	return runtime.VerifC26MarkdownEscape(s, allowHTML)
+}
+
+// MarkdownCodeBlockEscape calls runtime.markdownCodeBlockEscape and returns
+// what it wrote.
+func MarkdownCodeBlockEscape(s string, spaces bool) (string, error) {
+	return runtime.VerifC26MarkdownCodeBlockEscape(s, spaces)
+}
